@@ -66,6 +66,17 @@ def main(args):
         for key, val in first.items():
             if fresh[key] != val:
                 failures.append(f"fresh-interpreter (PYTHONHASHSEED={hashseed}) divergence {key}: {val} vs {fresh[key]}")
+    if tier == "thorough":
+        # same seeds inside a 16-worker fork pool: scheduling of *processes* must not matter either
+        import concurrent.futures as cf  # pylint: disable=import-outside-toplevel
+        import multiprocessing  # pylint: disable=import-outside-toplevel
+        ctx = multiprocessing.get_context("fork")
+        with cf.ProcessPoolExecutor(max_workers=16, mp_context=ctx) as pool:
+            futs = {prop: pool.submit(_digests, [prop], indices, base) for prop in props}
+            for prop, fut in futs.items():
+                for key, val in fut.result().items():
+                    if first[key] != val:
+                        failures.append(f"pool-worker divergence {key}: {first[key]} vs {val}")
     distinct = len(set(first.values()))
     # fixed findings must stay fixed
     from . import batch  # pylint: disable=import-outside-toplevel
